@@ -1493,7 +1493,74 @@ fn mtable_to_rval(t: &MTable) -> RVal {
     let entries: Vec<(String, RVal)> = idx.iter().map(|&i| conv(&t.entries[i])).collect();
     let in_first_order = idx.windows(2).all(|w| w[0] < w[1]);
     let alt = if in_first_order { None } else { Some(t.entries.iter().map(|e| e.key.clone()).collect()) };
-    RVal::Table(RTable { entries, alt })
+    RVal::Table(RTable { entries, alt, dotted: t.kind == TKind::InlineDotted })
+}
+
+/// How a table came to exist (exported for the edit model of C08).
+#[derive(Clone, Copy, Debug, PartialEq, Eq)]
+pub enum KKind {
+    Root,
+    /// exists only as a prefix of header paths
+    Implicit,
+    /// has a header of its own (or was built through the API)
+    Defined,
+    /// created by dotted keys
+    Dotted,
+    /// element of an array of tables
+    Element,
+}
+
+#[derive(Clone, Debug, PartialEq)]
+pub enum KNode {
+    Val(RVal),
+    Table(KTable),
+    Aot(Vec<KTable>),
+}
+
+#[derive(Clone, Debug, PartialEq)]
+pub struct KTable {
+    pub kind: KKind,
+    pub entries: Vec<(String, KNode)>,
+}
+
+fn mtable_to_k(t: &MTable) -> KTable {
+    let mut idx: Vec<usize> = (0..t.entries.len()).collect();
+    idx.sort_by_key(|&i| t.entries[i].defined);
+    let kind = match t.kind {
+        TKind::Root => KKind::Root,
+        TKind::Implicit => KKind::Implicit,
+        TKind::Defined => KKind::Defined,
+        TKind::Dotted(_) => KKind::Dotted,
+        TKind::Element => KKind::Element,
+        TKind::InlineRoot | TKind::InlineDotted => KKind::Defined,
+    };
+    KTable {
+        kind,
+        entries: idx
+            .iter()
+            .map(|&i| {
+                let e = &t.entries[i];
+                let n = match &e.node {
+                    MNode::Val(v) => KNode::Val(v.clone()),
+                    MNode::Table(x) => KNode::Table(mtable_to_k(x)),
+                    MNode::Aot(v) => KNode::Aot(v.iter().map(mtable_to_k).collect()),
+                };
+                (e.key.clone(), n)
+            })
+            .collect(),
+    }
+}
+
+/// The document's tree with the kind of every table (strict reading).
+pub fn kind_tree(stmts: &[Stmt]) -> Result<KTable, String> {
+    let mut m = Model::new(Reading::Strict);
+    for s in stmts {
+        match s {
+            Stmt::Header { path, array, .. } => m.header(path, *array)?,
+            Stmt::KeyVal { path, val, .. } => m.keyval(path, val)?,
+        }
+    }
+    Ok(mtable_to_k(&m.root))
 }
 
 fn pval_to_rval(v: &PVal) -> Result<RVal, String> {
